@@ -51,6 +51,11 @@ enum Back {
 }
 struct Call { id: u64, op: String, scope: String, h: JoinHandle<(J, Back)>, cancel: Option<oneshot::Sender<()>> }
 
+#[derive(Default)]
+struct SaslSt { hash: crate::scram::Hash, peer_cfirst_bare: String, peer_cnonce: String, peer_sfirst: String, eut_mech: String, eut_cfirst: String, eut_cfinal: String, eut_sfirst: String }
+trait Pipe: Sized { fn pipe<R>(self, f: impl FnOnce(Self) -> R) -> R { f(self) } }
+impl<T> Pipe for T {}
+
 pub struct Exec {
     pub log: Vec<J>,
     t0: tokio::time::Instant,
@@ -58,6 +63,7 @@ pub struct Exec {
     alloc_mark: usize,
     side_listener: bool,
     peer: Option<DuplexStream>,
+    sasl: SaslSt,
     buf: Vec<u8>,
     eof_logged: bool,
     sh: Shifts,
@@ -146,7 +152,7 @@ fn identify(msg: &Message<Body<Value>>) -> (i64, usize, bool) {
 
 impl Exec {
     pub fn new(listener: bool) -> Self {
-        Exec { log: vec![], t0: tokio::time::Instant::now(), cpu_mark: crate::mon::thread_cpu_ns(), alloc_mark: crate::mon::alloc_mark(), side_listener: listener, peer: None, buf: vec![], eof_logged: false, sh: Shifts::default(), conn: None, sessions: HashMap::new(),
+        Exec { log: vec![], t0: tokio::time::Instant::now(), cpu_mark: crate::mon::thread_cpu_ns(), alloc_mark: crate::mon::alloc_mark(), side_listener: listener, peer: None, sasl: SaslSt::default(), buf: vec![], eof_logged: false, sh: Shifts::default(), conn: None, sessions: HashMap::new(),
                senders: HashMap::new(), receivers: HashMap::new(), held: HashMap::new(), futs: HashMap::new(), calls: vec![], next_call: 1, roles: HashMap::new(),
                pending_begins: vec![], eut_channel: HashMap::new(), eut_dids: HashMap::new(), eut_frames: HashMap::new(), eut_noi: HashMap::new(),
                out_progress: HashMap::new(), sent_queue: HashMap::new(), link_of_handle: HashMap::new(), pending_attach: vec![], msg_shapes: HashMap::new(), names: HashMap::new(), eut_sender_dc: HashMap::new(), peer_link_name: HashMap::new(), gates: HashMap::new(), batch_calls: vec![], calls_scope: HashMap::new(), link_sess: HashMap::new(), await_of: HashMap::new() }
@@ -194,8 +200,17 @@ impl Exec {
             let body = &f[(f[4] as usize * 4).clamp(8, size)..];
             if body.is_empty() { self.emit(json!({"ev": "EFrame", "perf": "empty", "ch": ch, "size": size, "f": {}})); continue; }
             if ftype == 1 {
-                let d = serde_amqp::from_slice::<fe2o3_amqp::frames::sasl::Frame>(body).map(|x| class_of(&format!("{x:?}"))).unwrap_or("undecodable".into());
-                self.emit(json!({"ev": "ESasl", "kind": d, "body": body}));
+                let mut d = crate::scram::decode(body);
+                match d["kind"].as_str().unwrap_or("") {
+                    "init" => { self.sasl.eut_mech = d["mech"].as_str().unwrap_or("").to_string(); self.sasl.eut_cfirst = d["resp"].as_str().unwrap_or("").to_string(); }
+                    "response" => self.sasl.eut_cfinal = d["resp"].as_str().unwrap_or("").to_string(),
+                    "challenge" => self.sasl.eut_sfirst = d["data"].as_str().unwrap_or("").to_string(),
+                    _ => {}
+                }
+                for (_, v) in d.as_object_mut().unwrap().iter_mut() { if v.is_null() { *v = json!("<none>"); } }
+                d["ev"] = json!("ESasl");
+                d["n"] = json!(body.len());
+                self.emit(d);
                 continue;
             }
             let pl = perf_len(body);
@@ -372,6 +387,115 @@ impl Exec {
         self.emit(json!({"ev": "PFrame", "perf": name, "ch": ch, "size": bytes.len(), "f": fj, "pl": pl, "written": ok}));
     }
 
+    /// SASL frame of the scripted peer, built from a symbolic descriptor (see spec/sasl/SaslRules.tla)
+    async fn peer_sasl(&mut self, e: &J) {
+        use crate::scram as sc;
+        let k = e["k"].as_str().unwrap_or("");
+        let st = |v: &J, k: &str, d: &str| -> String { v.get(k).and_then(|x| x.as_str()).unwrap_or(d).to_string() };
+        let body: Vec<u8> = match k {
+            "mechanisms" => sc::mechanisms(&e["list"].as_array().map(|a| a.iter().map(|x| x.as_str().unwrap_or("").to_string()).collect::<Vec<_>>()).unwrap_or_default()),
+            "init" => {
+                let r = &e["resp"];
+                let resp: Option<Vec<u8>> = match st(r, "t", "none").as_str() {
+                    // '~' in a descriptor stands for NUL
+                    "raw" => Some(st(r, "s", "").replace('~', "\0").into_bytes()),
+                    "plain" => Some(format!("{}\0{}\0{}{}", st(r, "z", ""), st(r, "u", ""), st(r, "p", ""), st(r, "x", "")).replace('~', "\0").into_bytes()),
+                    "cfirst" => {
+                        let (gs2, u, n) = (st(r, "gs2", "n,,"), st(r, "u", ""), st(r, "nonce", "cnonce"));
+                        let bare = match st(r, "form", "ok").as_str() { "nononce" => format!("n={u}"), "nouser" => format!("r={n}"), "swapped" => format!("r={n},n={u}"), "ext" => format!("m=x,n={u},r={n}"), _ => format!("n={u},r={n}") };
+                        self.sasl.peer_cfirst_bare = bare.clone();
+                        self.sasl.peer_cnonce = n;
+                        Some(format!("{gs2}{bare}").into_bytes())
+                    }
+                    _ => None,
+                };
+                self.sasl.hash = sc::Hash::of_mech(&st(e, "mech", ""));
+                sc::init(&st(e, "mech", ""), &resp, e.get("host").and_then(|x| x.as_str()))
+            }
+            "response" => {
+                let r = &e["resp"];
+                match st(r, "t", "raw").as_str() {
+                    "cfinal" => {
+                        // answer the endpoint's challenge (or an invented one when it sent none)
+                        let sfirst = if self.sasl.eut_sfirst.is_empty() { format!("r={}srv,s={},i=4096", self.sasl.peer_cnonce, sc::b64(b"salt")) } else { self.sasl.eut_sfirst.clone() };
+                        let (nonce, salt, it) = (sc::attr(&sfirst, 'r').unwrap_or("").to_string(), sc::attr(&sfirst, 's').and_then(sc::unb64).unwrap_or_default(), sc::attr(&sfirst, 'i').and_then(|x| x.parse::<u32>().ok()).unwrap_or(1));
+                        let nonce = match st(r, "nonce", "ok").as_str() { "bad" => format!("{}X", &nonce[..nonce.len().saturating_sub(1)]), "clientonly" => self.sasl.peer_cnonce.clone(), _ => nonce };
+                        let cb = if st(r, "cb", "n") == "n" { "biws" } else { "eSws" };
+                        let wo = format!("c={cb},r={nonce}");
+                        let h = self.sasl.hash;
+                        let salted = h.hi(st(r, "pw", "").as_bytes(), &salt, it);
+                        let mut proof = sc::client_proof(h, &salted, &sc::auth_message(&self.sasl.peer_cfirst_bare, &sfirst, &wo));
+                        match st(r, "proof", "ok").as_str() {
+                            "flip" => { proof[0] ^= 1; format!("{wo},p={}", sc::b64(&proof)).into_bytes() }
+                            "short" => { proof.pop(); format!("{wo},p={}", sc::b64(&proof)).into_bytes() }
+                            "none" => wo.into_bytes(),
+                            "empty" => format!("{wo},p=").into_bytes(),
+                            "notb64" => format!("{wo},p=!!!!").into_bytes(),
+                            _ => format!("{wo},p={}", sc::b64(&proof)).into_bytes(),
+                        }.pipe(|b| sc::response(&b))
+                    }
+                    _ => sc::response(st(r, "s", "").as_bytes()),
+                }
+            }
+            "challenge" => {
+                let c = &e["c"];
+                match st(c, "t", "raw").as_str() {
+                    "sfirst" => {
+                        let cn = sc::attr(self.sasl.eut_cfirst.splitn(3, ',').nth(2).unwrap_or(""), 'r').unwrap_or("").to_string();
+                        let nonce = match st(c, "nonce", "extend").as_str() { "other" => "Zm9yZWlnbg==srv".to_string(), "prefix" => format!("{}Xsrv", &cn[..cn.len().saturating_sub(1)]), "same" => cn.clone(), _ => format!("{cn}srv") };
+                        let salt = match st(c, "salt", "good").as_str() { "notb64" => "!!!!".to_string(), "empty" => String::new(), _ => sc::b64(b"saltsaltsaltsalt") };
+                        let it = st(c, "iter", "64");
+                        let mut parts = vec![];
+                        let drop = st(c, "drop", "none");
+                        if st(c, "ext", "") != "" { parts.push(st(c, "ext", "")); }
+                        if drop != "nonce" { parts.push(format!("r={nonce}")); }
+                        if drop != "salt" { parts.push(format!("s={salt}")); }
+                        if drop != "iter" { parts.push(format!("i={it}")); }
+                        let m = parts.join(",");
+                        self.sasl.peer_sfirst = m.clone();
+                        sc::challenge(m.as_bytes())
+                    }
+                    _ => sc::challenge(st(c, "s", "").as_bytes()),
+                }
+            }
+            "outcome" => {
+                let d = &e["data"];
+                let data: Option<Vec<u8>> = match st(d, "t", "none").as_str() {
+                    "raw" => Some(st(d, "s", "").into_bytes()),
+                    "sfinal" => {
+                        // signature over the exchange as the endpoint saw it
+                        let h = sc::Hash::of_mech(&self.sasl.eut_mech);
+                        let bare = self.sasl.eut_cfirst.splitn(3, ',').nth(2).unwrap_or("").to_string();
+                        let sfirst = self.sasl.peer_sfirst.clone();
+                        let wo = self.sasl.eut_cfinal.rsplit_once(",p=").map(|x| x.0.to_string()).unwrap_or_default();
+                        let (salt, it) = (sc::attr(&sfirst, 's').and_then(sc::unb64).unwrap_or_default(), sc::attr(&sfirst, 'i').and_then(|x| x.parse::<u32>().ok()).unwrap_or(1));
+                        let sig_kind = st(d, "sig", "good");
+                        let pw = if sig_kind == "wrongpw" { "nope".to_string() } else { st(d, "pw", "pass") };
+                        let am = if sig_kind == "otherexch" { sc::auth_message(&format!("{bare}x"), &sfirst, &wo) } else { sc::auth_message(&bare, &sfirst, &wo) };
+                        let mut sig = sc::server_signature(h, &h.hi(pw.as_bytes(), &salt, it), &am);
+                        Some(match sig_kind.as_str() {
+                            "flip" => { sig[0] ^= 1; format!("v={}", sc::b64(&sig)) }
+                            "empty" => "v=".to_string(),
+                            "noprefix" => sc::b64(&sig),
+                            "err" => "e=other-error".to_string(),
+                            _ => format!("v={}", sc::b64(&sig)),
+                        }.into_bytes())
+                    }
+                    _ => None,
+                };
+                sc::outcome(e["code"].as_u64().unwrap_or(0) as u8, &data)
+            }
+            _ => vec![0x40],
+        };
+        let bytes = frame_bytes(1, 0, &body);
+        let ok = self.peer_write(&bytes).await;
+        let mut ev = e.clone();
+        ev.as_object_mut().unwrap().remove("e");
+        ev["ev"] = json!("PSasl");
+        ev["written"] = json!(ok);
+        self.emit(ev);
+    }
+
     // ------------------------------------------------------------------ script events
     pub async fn event(&mut self, e: &J) {
         let kind = e["e"].as_str().unwrap_or("");
@@ -392,7 +516,36 @@ impl Exec {
                 let h: JoinHandle<(J, Back)> = if kind == "AOpen" {
                     let mut bld = Connection::builder().container_id("eut").max_frame_size(mfs).channel_max(chmax).buffer_size(buf);
                     if let Some(i) = idle { bld = bld.idle_time_out(i as u32); }
+                    if let Some(sa) = cfg.get("sasl") {
+                        use fe2o3_amqp::sasl_profile::{scram::{SaslScramSha1, SaslScramSha256, SaslScramSha512}, SaslProfile};
+                        let (u, p) = (sa["user"].as_str().unwrap_or("user").to_string(), sa["pass"].as_str().unwrap_or("pass").to_string());
+                        bld = bld.sasl_profile(match sa["mech"].as_str().unwrap_or("PLAIN") {
+                            "ANONYMOUS" => SaslProfile::Anonymous,
+                            "SCRAM-SHA-1" => SaslProfile::ScramSha1(SaslScramSha1::new(u, p)),
+                            "SCRAM-SHA-256" => SaslProfile::ScramSha256(SaslScramSha256::new(u, p)),
+                            "SCRAM-SHA-512" => SaslProfile::ScramSha512(SaslScramSha512::new(u, p)),
+                            _ => SaslProfile::Plain { username: u, password: p },
+                        });
+                    }
                     tokio::spawn(async move { match bld.open_with_stream(a).await { Ok(c) => (ok_json(), Back::Conn(Conn::C(c))), Err(e) => (err_json(&e), Back::None) } })
+                } else if let Some(sa) = cfg.get("sasl") {
+                    use fe2o3_amqp::acceptor::{SaslAnonymousMechanism, SaslPlainMechanism};
+                    use fe2o3_amqp::auth::scram::{ScramAuthenticator, ScramVersion};
+                    let mut bld = ConnectionAcceptor::builder().container_id("eut").max_frame_size(mfs).channel_max(chmax).buffer_size(buf);
+                    if let Some(i) = idle { bld = bld.idle_time_out(i as u32); }
+                    let (u, p) = (sa["user"].as_str().unwrap_or("user").to_string(), sa["pass"].as_str().unwrap_or("pass").to_string());
+                    let mech = sa["mech"].as_str().unwrap_or("PLAIN").to_string();
+                    self.sasl.hash = crate::scram::Hash::of_mech(&mech);
+                    macro_rules! go { ($acc:expr) => {{ let acc = $acc; tokio::spawn(async move { match acc.accept(a).await { Ok(c) => (ok_json(), Back::Conn(Conn::L(c))), Err(e) => (err_json(&e), Back::None) } }) }} }
+                    match mech.as_str() {
+                        "ANONYMOUS" => go!(bld.sasl_acceptor(SaslAnonymousMechanism::new()).build()),
+                        "SCRAM-SHA-1" | "SCRAM-SHA-256" | "SCRAM-SHA-512" => {
+                            let v = match mech.as_str() { "SCRAM-SHA-1" => ScramVersion::Sha1, "SCRAM-SHA-512" => ScramVersion::Sha512, _ => ScramVersion::Sha256 };
+                            let cred = std::sync::Arc::new(fe2o3_amqp::acceptor::scram::SingleScramCredential::new(u, p, v).expect("scram credential"));
+                            go!(bld.sasl_acceptor(ScramAuthenticator::new(cred)).build())
+                        }
+                        _ => go!(bld.sasl_acceptor(SaslPlainMechanism::new(u, p)).build()),
+                    }
                 } else {
                     let mut bld = ConnectionAcceptor::builder().container_id("eut").max_frame_size(mfs).channel_max(chmax).buffer_size(buf);
                     if let Some(i) = idle { bld = bld.idle_time_out(i as u32); }
@@ -630,6 +783,7 @@ impl Exec {
                 self.emit(json!({"ev": "PHeader", "kind": e.get("kind").cloned().unwrap_or(json!("amqp")), "written": ok}));
             }
             "PFrame" => self.peer_frame(e).await,
+            "PSasl" => self.peer_sasl(e).await,
             "PEmpty" => { let ch = e.get("ch").and_then(|x| x.as_u64()).unwrap_or(0) as u16; let ok = self.peer_write(&frame_bytes(0, ch, &[])).await; self.emit(json!({"ev": "PFrame", "perf": "empty", "ch": ch, "size": 8, "f": {}, "pl": {"m": -1, "off": 0, "len": 0, "ok": true, "total": 0}, "written": ok})); }
             "PRaw" => { let b = match e.get("gen") {
                     // generated hostile bodies: a frame whose body is `depth` nested list8 headers
